@@ -90,7 +90,7 @@ Proof.
       assert (Hb' : bounded n (set_origin o' srcs)) by (apply bounded_set_origin; auto).
       destruct ps; inv H; cbn; split; auto; intros; discriminate.
   - (* v_list *)
-    intros b n srcs vr Hb H. cbn in H. unfold m2_visit_list in H.
+    intros b m srcs vr Hb H. set (n := S m) in *. cbn in H. unfold m2_visit_list in H.
     pose proof (bounded_origin _ _ Hb) as Ho.
     destruct (negb b).
     + destruct (origin_of srcs); inv H; cbn; split; auto; intros; discriminate.
